@@ -563,7 +563,14 @@ func (fr *Frame) localAt(b *ssa.BasicBlock, name string, phiSub map[*ssa.Phi]ssa
 			return t, true
 		}
 	}
-	return fr.paramOrResult(name, st)
+	if t, ok := fr.paramOrResult(name, st); ok {
+		return t, true
+	}
+	// the contract's name for a local that has been renamed since the contract was written
+	if alias, ok := fr.c.eng.renamedLocal(fr.fn, name); ok && alias != name {
+		return fr.localAt(b, alias, phiSub, st)
+	}
+	return Term{}, false
 }
 
 func (fr *Frame) localInBlock(blk *ssa.BasicBlock, upto int, name string, st *State) (Term, bool) {
@@ -619,7 +626,13 @@ func (fr *Frame) localAtEnd(b *ssa.BasicBlock, name string, st *State) (Term, bo
 			return t, true
 		}
 	}
-	return fr.paramOrResult(name, st)
+	if t, ok := fr.paramOrResult(name, st); ok {
+		return t, true
+	}
+	if alias, ok := fr.c.eng.renamedLocal(fr.fn, name); ok && alias != name {
+		return fr.localAtEnd(b, alias, st)
+	}
+	return Term{}, false
 }
 
 func (fr *Frame) encodeBody(entry *State) {
